@@ -29,6 +29,8 @@ class Knobs:
     typed: bool = False
     memo: bool = False
     action_pool: tuple[str, ...] = ()
+    lookahead_terminals_only: bool = False
+    nullable_loops: bool = True
 
 
 RULE_NAMES = ["start", "a", "b", "c", "d", "e"]
@@ -49,7 +51,8 @@ class GrammarGen:
             choices += ["ref"] * 3
         c = r.choice(choices)
         if c == "term":
-            return r.choice(k.terminals)
+            t = r.choice(k.terminals)
+            return f"({t})" if t[-1] in "?*+" else t
         if c == "ref":
             return r.choice(self.names)
         return "(" + self.alts(depth - 1, first, top=False) + ")"
@@ -83,9 +86,9 @@ class GrammarGen:
         elif op == "gather":
             core = self.atom(0, False if not k.left_rec else first) + "." + self.atom(depth, first) + "+"
         elif op == "pos":
-            return "&" + self.atom(depth, first)
+            return "&" + (r.choice([t for t in k.terminals if t[-1] not in "?*"]) if k.lookahead_terminals_only else self.atom(depth, first))
         elif op == "neg":
-            return "!" + self.atom(depth, first)
+            return "!" + (r.choice([t for t in k.terminals if t[-1] not in "?*"]) if k.lookahead_terminals_only else self.atom(depth, first))
         elif op == "forced":
             return "&&" + self.atom(depth, first)
         else:
